@@ -755,9 +755,10 @@ func (ed Editor) JustifyOpts(width int, opts Options) Editor {
 	opts = opts.WithDefaults()
 
 	if opts.PreserveParagraphs {
+		placeholder := affixPlaceholder(opts.LineSeparator)
 		ed = ed.applyGParagraphsOpts(func(idx int, para, pre, suf gem.String) []gem.String {
-			sepStart := gem.RepeatStr("A", pre.Len())
-			sepEnd := gem.RepeatStr("A", suf.Len())
+			sepStart := gem.RepeatStr(string(placeholder), pre.Len())
+			sepEnd := gem.RepeatStr(string(placeholder), suf.Len())
 
 			bl := tb.New(sepStart.Add(para).Add(sepEnd), gem.New(opts.LineSeparator))
 			bl.Apply(func(idx int, line string) []string {
@@ -862,11 +863,12 @@ func (ed Editor) WrapOpts(width int, opts Options) Editor {
 	}
 
 	if opts.PreserveParagraphs {
+		placeholder := affixPlaceholder(opts.LineSeparator)
 		edi := ed.applyGParagraphsOpts(func(idx int, para, sepPrefix, sepSuffix gem.String) []gem.String {
 			// need to include the separator prefix/suffix if any
 
-			sepStart := gem.RepeatStr("A", sepPrefix.Len())
-			sepEnd := gem.RepeatStr("A", sepSuffix.Len())
+			sepStart := gem.RepeatStr(string(placeholder), sepPrefix.Len())
+			sepEnd := gem.RepeatStr(string(placeholder), sepSuffix.Len())
 			textBlock := manip.Wrap(sepStart.Add(para).Add(sepEnd), width, gem.New(opts.LineSeparator))
 			text := textBlock.Join()
 
@@ -895,4 +897,18 @@ func (ed Editor) WrapOpts(width int, opts Options) Editor {
 
 	ed.Text = text.String()
 	return ed
+}
+
+// affixPlaceholder gives the character that stands in for the parts of the
+// paragraph separator that share a line with a paragraph while that paragraph
+// is laid out in a PreserveParagraphs operation. The stand-ins are taken out
+// again by count afterwards, so they must survive the operation untouched: the
+// character must not occur in the line separator, which the operation splits on
+// (Justify) or turns into spaces (Wrap).
+func affixPlaceholder(lineSep string) rune {
+	placeholder := 'A'
+	for strings.ContainsRune(lineSep, placeholder) {
+		placeholder++
+	}
+	return placeholder
 }
